@@ -29,6 +29,7 @@ def wP : Nat → P W
       pure (.or c l r)
     | "SUMM" => do let w ← wP fuel; pure (.summ w)
     | "PASS" => do let w ← wP fuel; pure (.pass w)
+    | "NORM" => do let w ← wP fuel; pure (.norm w)
     | _ => fail
 
 inductive Op where
